@@ -5,6 +5,6 @@ cd /verif
 ls -d seeded/*/ | xargs -P ${1:-4} -I@ sh -c '
   d=@; id=$(basename $d); p=$(python3 -c "import json,sys; print(json.load(open(sys.argv[1]))[\"property\"])" ${d}meta.json)
   out=/tmp/reseed_$id.log
-  engine/try_seed.sh /verif/${d}patch.diff $p > $out 2>&1; rc=$?
+  VERIF_SKIP_KANI=1 engine/try_seed.sh /verif/${d}patch.diff $p > $out 2>&1; rc=$?
   echo "$id $p rc=$rc $(grep -c "^VIOLATION" $out) violation lines; $(grep "^VIOLATION" $out | head -1 | cut -c1-200)"
 '
